@@ -9,6 +9,7 @@ import SlipVerif.Driver.Util
                                           (the scanner is run on the text after the first `~`)
      tot group <digits> <commaint> <hex comma>  -> ok <hex expanded text>
      tot tables                        -> ok reader=<ReaderOK> format=<FormatOK>
+     tot blocksize                     -> ok <readBlockSize of code.go>
    The tables are the ones regenerated from the sources (Gen/C09Reader, Gen/C09Format). -/
 namespace SlipVerif.Driver.Totality
 open SlipVerif.Totality SlipVerif.Driver
@@ -71,6 +72,7 @@ def handle (entry : String) (args : List String) : String :=
       if c = 0 ∨ out.length < 1 + signLen then "bad-request group"
       else "ok " ++ hexString (String.ofList (groupText out signLen c comma.toList))
     | _, _ => "bad-request group"
+  | "blocksize", [] => s!"ok {SlipVerif.Gen.C09Reader.readBlockSize}"
   | "tables", [] => s!"ok reader={ReaderOK readerTables} format={FormatOK formatTables}"
   | _, _ => "bad-request entry"
 
